@@ -40,6 +40,10 @@ pub enum Tok {
     Mutated(u8),
     /// A 3- or 5-byte string derived from the latest own token.
     Resized(u8),
+    /// A token anybody can compute without knowing the server's secrets: 0 = CRC32C(ip || 20 zero
+    /// bytes), 1 = CRC32C(ip), 2 = CRC32C(ip || 20 x 0xff), 3 = the IP octets, 4 = four zero bytes
+    /// (the construction is public; only the secrets make a token "issued by this node").
+    Guess(u8),
 }
 
 #[derive(Clone, Copy, Debug, PartialEq, Eq, Hash)]
@@ -305,6 +309,31 @@ pub struct SrvState {
     pub trace: Option<Vec<(SocketAddrV4, Vec<u8>, Option<Vec<u8>>)>>,
 }
 
+/// A full running node standing in for the `Server` clone: the same request histories, the
+/// same reference model and the same oracle are then applied to the threaded node (actor loop,
+/// socket layer, `Core::handle_request`) on the simulated network. Installed per thread by the
+/// E1 binding (`checks::srvchecks::e1_replay`); the BFS itself never uses it.
+pub trait Remote {
+    /// Send one request datagram from `from`; returns the reply datagram, if any.
+    fn exchange(&mut self, from: SocketAddrV4, bytes: &[u8]) -> Result<Option<Vec<u8>>, String>;
+    fn snapshot(&mut self) -> ServerSnapshot;
+    fn advance(&mut self, d: u64);
+    fn now(&self) -> u64;
+}
+
+thread_local! {
+    static REMOTE: std::cell::RefCell<Option<Box<dyn Remote>>> = const { std::cell::RefCell::new(None) };
+}
+
+/// Installs (or removes) the remote backend of this thread; returns the previous one.
+pub fn set_remote(r: Option<Box<dyn Remote>>) -> Option<Box<dyn Remote>> {
+    REMOTE.with(|c| std::mem::replace(&mut *c.borrow_mut(), r))
+}
+
+fn with_remote<R>(f: impl FnOnce(&mut dyn Remote) -> R) -> Option<R> {
+    REMOTE.with(|c| c.borrow_mut().as_mut().map(|r| f(r.as_mut())))
+}
+
 fn keypair(i: u8) -> ed25519_dalek::SigningKey {
     krpc::signing_key(0x30 + i)
 }
@@ -405,6 +434,22 @@ impl SrvState {
                 t.resize(n as usize, 0);
                 t
             }),
+            Tok::Guess(k) => {
+                let mut data = ip.octets().to_vec();
+                Some(match k {
+                    0 => {
+                        data.extend_from_slice(&[0u8; 20]);
+                        crate::krpc::crc32c(&data).to_be_bytes().to_vec()
+                    }
+                    1 => crate::krpc::crc32c(&data).to_be_bytes().to_vec(),
+                    2 => {
+                        data.extend_from_slice(&[0xffu8; 20]);
+                        crate::krpc::crc32c(&data).to_be_bytes().to_vec()
+                    }
+                    3 => data,
+                    _ => vec![0u8; 4],
+                })
+            }
         }
     }
 
@@ -419,6 +464,20 @@ impl SrvState {
         let MessageType::Request(req) = m.message_type else {
             return Err("not a request".into());
         };
+        if let Some(r) = with_remote(|r| {
+            let out = r.exchange(from, bytes);
+            (out, r.now())
+        }) {
+            let (out, now) = r;
+            self.now = now;
+            sim::local_set_clock(self.now);
+            let Some(out) = out? else { return Ok(None) };
+            let k = Krpc::parse(&out).ok_or("the node's reply does not parse with the independent reader")?;
+            if k.tid_u32() != Some(tid) {
+                return Err("reply tid differs".into());
+            }
+            return Ok(Some(k));
+        }
         let reply = self.server.handle_request(&self.table, &self.table, from, req);
         let Some(reply) = reply else {
             if let Some(t) = self.trace.as_mut() {
@@ -442,6 +501,12 @@ impl SrvState {
             return Err("reply tid differs".into());
         }
         Ok(Some(k))
+    }
+
+    /// The stores and token secrets of the server under test (the node's, when a remote backend
+    /// is installed).
+    fn snap(&self) -> ServerSnapshot {
+        with_remote(|r| r.snapshot()).unwrap_or_else(|| self.server.verif_snapshot())
     }
 
     fn want(&self, prop: &str) -> bool {
@@ -612,7 +677,7 @@ impl SrvState {
         out: &mut Partial,
         path: &[u16],
     ) {
-        let before = self.server.verif_snapshot();
+        let before = self.snap();
         let vetoed = self.cfg.veto_ip == Some(*from.ip());
         let verdict = self.token_check(from, token);
         let reply = match self.exchange(from, &bytes) {
@@ -622,7 +687,7 @@ impl SrvState {
                 return;
             }
         };
-        let after = self.server.verif_snapshot();
+        let after = self.snap();
         if vetoed {
             if reply.is_some() {
                 self.viol(out, "C03", "filter/replied", format!("{what}: a vetoed request got a reply"), path);
@@ -721,7 +786,13 @@ impl SrvState {
         let t = self.tid.to_be_bytes();
         match act.clone() {
             Act::Tick(d) => {
-                self.now += d;
+                match with_remote(|r| {
+                    r.advance(d);
+                    r.now()
+                }) {
+                    Some(now) => self.now = now,
+                    None => self.now += d,
+                }
                 sim::local_set_clock(self.now);
                 return true;
             }
@@ -922,7 +993,7 @@ impl SrvState {
                     m.last_accepted.insert(target, item.clone());
                 }, out, path);
                 // monotonicity on every state (C04): the stored seq never decreases while resident
-                let now_seq = self.server.verif_snapshot().mutable.iter().find(|m| *m.target.as_bytes() == target).map(|m| m.seq);
+                let now_seq = self.snap().mutable.iter().find(|m| *m.target.as_bytes() == target).map(|m| m.seq);
                 if let (Some(p), Some(n)) = (prev_seq, now_seq) {
                     if n < p {
                         self.viol(out, "C04", "stored-seq-decreased", format!("stored seq went from {p} to {n}"), path);
@@ -982,7 +1053,7 @@ impl SrvState {
                 }, out, path);
             }
         }
-        let snap = self.server.verif_snapshot();
+        let snap = self.snap();
         self.compare_stores(&snap, out, path);
         self.rng = sim::local_get_rng();
         true
@@ -1012,7 +1083,7 @@ impl SrvState {
         path: &[u16],
         check: &mut dyn FnMut(&mut SrvState, &Krpc, &mut Partial, &[u16]),
     ) {
-        let before = self.server.verif_snapshot();
+        let before = self.snap();
         let vetoed = self.cfg.veto_ip == Some(*from.ip());
         let reply = match self.exchange(from, &bytes) {
             Ok(r) => r,
@@ -1022,7 +1093,7 @@ impl SrvState {
             }
         };
         if vetoed {
-            let after = self.server.verif_snapshot();
+            let after = self.snap();
             if reply.is_some() {
                 self.viol(out, "C03", "filter/replied", format!("{what}: a vetoed request got a reply"), path);
             }
@@ -1078,6 +1149,26 @@ impl Machine for SrvState {
 pub fn replay_path(cfg: SrvCfg, path: &[u16]) -> Partial {
     let mut out = Partial::default();
     let mut st = SrvState::new(cfg);
+    for (n, a) in path.iter().enumerate().skip(1) {
+        st.enter();
+        let act = st.cfg.alphabet[*a as usize].clone();
+        st.apply(&act, &mut out, &path[..=n]);
+    }
+    out
+}
+
+/// Like `replay_path`, but the configuration's priming actions are judged like any other step
+/// (used by the E1 binding, where the backend is a running node).
+pub fn replay_with_prime(cfg: SrvCfg, path: &[u16]) -> Partial {
+    let mut out = Partial::default();
+    let prime = cfg.prime.clone();
+    let mut cfg0 = cfg;
+    cfg0.prime = vec![];
+    let mut st = SrvState::new(cfg0);
+    for a in prime {
+        st.enter();
+        st.apply(&a, &mut out, &[0]);
+    }
     for (n, a) in path.iter().enumerate().skip(1) {
         st.enter();
         let act = st.cfg.alphabet[*a as usize].clone();
